@@ -191,6 +191,12 @@ pub fn c13(tier: &str, seed: u64) {
     if mds.is_empty() {
       mds.push(g.below(256) as u8);
     }
+    // tag-set sizes at the top of the range: 255 and all 256 tags (the largest legal public key)
+    if _si == 1 {
+      mds = (0..=255u8).collect();
+    } else if _si == 2 {
+      mds = (0..255u8).collect();
+    }
     let tags = distinct_tags(&mds);
     let server = Server::new(mds.clone()).expect("Server::new");
     let pk = server.get_public_key();
@@ -199,7 +205,7 @@ pub fn c13(tier: &str, seed: u64) {
     let pk2 = match ServerPublicKey::load_from_bincode(&pkb) {
       Ok(p) => p,
       Err(_) => {
-        fail("pk_roundtrip_load", &[("pk", hex(&pkb))]);
+        fail("pk_roundtrip_load", &[("tags", mds.len().to_string()), ("pk_len", pkb.len().to_string()), ("pk", hex(&pkb[..pkb.len().min(200)]))]);
         continue;
       }
     };
